@@ -82,6 +82,11 @@ var dataVariants = []dvariant{
 	{"empty-text", "", "err", "ok", "", false, ""},
 	{"truncated", PoolDataTruncated, "err", "ok", "", false, ""},
 	{"open-brace", "{", "err", "ok", "", false, ""},
+	{"bom-then-good", "\xef\xbb\xbf" + PoolDataGood, "err", "ok", "", false, ""},
+	{"bom-then-bad", "\xef\xbb\xbf" + PoolDataBad, "err", "ok", "", false, ""},
+	{"latin1-in-a-string", "{\"@id\":\"http://example.org/d#a\",\"@type\":\"http://example.org/ns#Thing\",\"http://example.org/ns#name\":\"caf\xe9\"}", "ok", "ok", "", true, ""},
+	{"latin1-no-name", "{\"@id\":\"http://example.org/d#a\",\"@type\":\"http://example.org/ns#Thing\",\"http://example.org/ns#label\":\"caf\xe9 \xff\xfe\"}", "ok", "ok", "", true, ""},
+	{"trailing-text", PoolDataGood + " and more", "ok", "ok", "", true, ""},
 	{"jsonld-id-number", `{"@id": 5, "@type": "http://example.org/ns#Thing"}`, "ok", "panic", "", false, ""},
 	{"jsonld-context-number", `{"@context": 5, "@id": "http://example.org/d#a"}`, "ok", "panic", "", false, ""},
 	{"jsonld-type-number", `{"@id": "http://example.org/d#a", "@type": 1}`, "ok", "panic", "", false, ""},
@@ -534,7 +539,7 @@ func C11(e *core.Env) {
 
 func C04(e *core.Env) {
 	res := e.Res
-	res.Rule = "cases = (unreadable data text, entry point): empty text, every 5th (quick) / every (thorough) proper prefix of two valid documents cut inside the first JSON value, UTF-16/UTF-32/BOM/Latin-1 encodings, YAML/RAML/XML/Rego texts, JSON that JSON-LD rejects (non-string @id, bad @context, bad @type, @value+@id, bad @base, invalid @language, contexts and documents named by a URL that cannot be loaded, conflicting @index values found only while the node objects are merged) x Validate / ValidateWithConfiguration / ValidateCompiled / ValidateCompiledWithConfiguration (also with the debug flag set) and the built acv binary (validate, normalize); expected: an error (non-zero exit, nothing on stdout), never a report; " +
+	res.Rule = "cases = (unreadable data text, entry point): empty text, every 5th (quick) / every (thorough) proper prefix of two valid documents cut inside the first JSON value, UTF-16/UTF-32/BOM/Latin-1 encodings, YAML/RAML/XML/Rego texts, JSON that JSON-LD rejects (non-string @id, bad @context, bad @type, @value+@id, bad @base, invalid @language, contexts and documents named by a URL that cannot be loaded, conflicting @index values found only while the node objects are merged, @graph: null / a scalar @graph / @language or @direction used as a property - rejected by the flattening step with an uncoded error) x Validate / ValidateWithConfiguration / ValidateCompiled / ValidateCompiledWithConfiguration (also with the debug flag set) and the built acv binary (validate, normalize); expected: an error (non-zero exit, nothing on stdout), never a report; histories (a readable document first, then the unreadable one three times); paired calls: the unreadable text and a readable document validated at once, both held at the same event (data parsing start / done, normalisation start, evaluation start) through the event channel and released in both orders; " +
 		"non-trivial = the text is not empty; distinct by (text, entry)"
 	texts := map[string]string{"empty": "", "space": "   \n", "open-brace": "{", "open-bracket": "[", "raml": PoolDataGarbage, "yaml": "a: 1\nb: [2\n",
 		"xml": "<?xml version=\"1.0\"?><a/>", "rego": "package x\np { true }\n", "single-quote": "{'@id': 'x'}", "trailing-comma": `{"@id": "http://x/a",}`,
@@ -553,6 +558,15 @@ func C04(e *core.Env) {
 		// documents every node object of which is fine (expansion succeeds) but which JSON-LD rejects as a whole while merging the
 		// node objects: one node given two different @index values
 		"jsonld-conflicting-indexes-container": `{"@context": {"ex": "http://example.org/ns#", "byName": {"@id": "ex:child", "@container": "@index"}}, "@id": "http://x/a", "@type": "ex:Thing", "byName": {"one": {"@id": "http://x/n", "@type": "ex:Thing"}, "two": {"@id": "http://x/n"}}}`,
+		// expansion succeeds; the flattening step rejects them with an error that is not one of the coded JSON-LD errors
+		"jsonld-graph-null":            `{"@graph": null}`,
+		"jsonld-graph-number":          `{"@graph": 5}`,
+		"jsonld-graph-string-in-node":  `{"@id": "http://x/a", "@graph": "s"}`,
+		"jsonld-graph-null-nested":     `{"@id": "http://x/a", "http://x/p": {"@graph": null}}`,
+		"jsonld-graph-null-in-array":   `[{"@graph": null}]`,
+		"jsonld-language-as-property":  `{"@id": "http://x/a", "@language": "en"}`,
+		"jsonld-direction-next-to-graph": `{"@graph": [], "@direction": "ltr"}`,
+		"jsonld-direction-as-property": `{"@id": "http://x/a", "@type": ["http://example.org/ns#Thing"], "@direction": "ltr"}`,
 		"jsonld-conflicting-indexes-expanded":  `[{"@id": "http://x/a", "@type": ["http://example.org/ns#Thing"], "http://example.org/ns#child": [{"@id": "http://x/n", "@index": "one", "@type": ["http://example.org/ns#Thing"]}, {"@id": "http://x/n", "@index": "two"}]}]`}
 	u16 := utf16.Encode([]rune(PoolDataGood))
 	var b16 bytes.Buffer
@@ -653,6 +667,39 @@ func C04(e *core.Env) {
 				}
 			}
 			res.Case("history|"+n+"|"+en, d != "")
+		}
+	}
+	// two calls at once, steered through the event channel: the call with the unreadable text and a call with a readable one are
+	// both held at the same stage-start event and then released one after the other, in both orders (whatever one call leaves
+	// behind before that stage must not be read by the other after it)
+	for _, n := range []string{"empty", "open-brace", fmt.Sprintf("prefix-%d-of-%d", 1+((len(strings.TrimSpace(PoolDataGood))/2-1)/stepN)*stepN, len(strings.TrimSpace(PoolDataGood))), "jsonld-id-number", "jsonld-graph-null"} {
+		d, ok := texts[n]
+		if !ok {
+			res.Violate("harness-error", "no text named "+n, map[string]any{"no_failing_input_found": true, "broken": "pool"})
+			continue
+		}
+		for _, en := range []string{"ValidateWithConfiguration", "ValidateCompiledWithConfiguration"} {
+			call := func(text string) func(ch *chan events.Event) (string, error) {
+				if en == "ValidateWithConfiguration" {
+					return func(ch *chan events.Event) (string, error) {
+						return pkg.ValidateWithConfiguration(PoolProfileLevels, text, false, ch, clockA, rc)
+					}
+				}
+				return func(ch *chan events.Event) (string, error) {
+					return pkg.ValidateCompiledWithConfiguration(compiled, text, false, ch, clockA, rc)
+				}
+			}
+			for _, stage := range []events.EventType{events.InputDataParsingStart, events.InputDataParsingDone, events.InputDataNormalizationStart, events.OpaValidationStart} {
+				for _, order := range [][]int{{0, 1}, {1, 0}} {
+					outs := parkedThenSerial(stage, 2*time.Second, order, []func(ch *chan events.Event) (string, error){call(d), call(PoolDataGood)})
+					if !strings.HasPrefix(outs[0], "error: ") {
+						res.Violate("impl-violates-property", fmt.Sprintf("unreadable data (%s) yields a report from %s while another call validates a readable document (both held at %s, released in the order %v)", n, en, eventName(stage), order),
+							map[string]any{"data": d, "data_kind": n, "entry_point": en, "other_call_data": PoolDataGood, "schedule": fmt.Sprintf("both calls held at their %s event through the event channel; released one after the other in the order %v (0 = the unreadable text)", eventName(stage), order), "returned": core.Trunc(outs[0], 1500), "other_call_returned": core.Trunc(outs[1], 300)})
+					}
+					res.Case(fmt.Sprintf("paired|%s|%s|%s|%v", n, en, eventName(stage), order), d != "")
+					res.Count("kind=paired-with-a-readable-call")
+				}
+			}
 		}
 	}
 	// the model's verdict for the two fault classes, all entry points
